@@ -4,6 +4,7 @@ use crate::exec::{Params, Program};
 
 pub mod cell;
 pub mod ebr;
+pub mod gen;
 pub mod rc;
 pub mod seq;
 pub mod tls;
@@ -20,6 +21,7 @@ pub fn all() -> Vec<&'static ScenarioDef> {
     v.extend(seq::SCENARIOS.iter());
     v.extend(cell::SCENARIOS.iter());
     v.extend(tls::SCENARIOS.iter());
+    v.extend(gen::SCENARIOS.iter());
     v.extend(ebr::SCENARIOS.iter());
     v
 }
